@@ -9,6 +9,7 @@ package main
 import (
 	"context"
 	"encoding/json"
+	"fmt"
 	"os"
 	"sync/atomic"
 
@@ -249,10 +250,10 @@ func executeDirs(hist dhistory) (string, *hcommon.Info, error) {
 			digTerm := "None"
 			var dp *digest.Digest
 			if o.Dig > 0 {
-				hs := hashes[(o.Dig-1)%len(hashes)]
-				d := digest.MustNewDigest("verif", remoteexecution.DigestFunction_SHA256, hs, 42)
+				hi := (o.Dig - 1) % len(hashes)
+				d := digest.MustNewDigest("verif", remoteexecution.DigestFunction_SHA256, hashes[hi], 42)
 				dp = &d
-				digTerm = g.Some(g.Str(hs))
+				digTerm = g.Some(fmt.Sprintf("hash%d", hi)) // constants of Corr.v, same strings as hashes[]
 			}
 			opTerm := g.App("DGet", g.Nat(slot), digTerm,
 				g.App("mkGF", g.Bool(h.flag(0)), g.Bool(h.flag(1)), g.Bool(h.flag(2)), g.Bool(h.flag(3)), g.Bool(h.flag(4))))
@@ -314,7 +315,7 @@ func executeDirs(hist dhistory) (string, *hcommon.Info, error) {
 func generateDirs(r *rng.R, thorough bool) json.RawMessage {
 	n := 10 + r.Intn(31)
 	if thorough {
-		n = 30 + r.Intn(120)
+		n = 20 + r.Intn(60)
 	}
 	h := dhistory{Mode: "dirs"}
 	files := []string{"x", "y", "input_root"}
